@@ -105,6 +105,10 @@ def _run_task(args):
         out = getattr(mod, fname)(*targ)
         for r in out:
             r.setdefault('task', '%s.%s%r' % (modname, fname, targ))
+        from .env import ALL_ENVS
+        used = sorted(set().union(*[e.trusted for e in ALL_ENVS])) if ALL_ENVS else []
+        if out:
+            out[0]['trusted'] = used
         return out
     except Exception as e:
         from .engine import Unsupported
@@ -247,6 +251,12 @@ def finish(pid, tier, results, t0, meta):
     for r in errors:
         lines.append('CHECKER-ERROR %s %s' % (r['name'], (r.get('detail') or '')[:300]))
 
+    tb = set(meta.get('trusted_base', []))
+    for r in results:
+        tb.update(r.get('trusted') or [])
+    tb.update(['pyvc engine: semantics of the Python subset (DESIGN 2.2), path exploration, contract application',
+               'z3 5.1.0 (cvc5 1.0.3 on z3 unknowns)'])
+    meta['trusted_base'] = tb
     n_obl = len(counted)
     n_dis = sum(1 for r in counted if r['verdict'] == 'proved')
     if n_obl == 0:
